@@ -315,4 +315,16 @@ example : ¬ SemVer [49, 46, 48, 50, 46, 51] := (shape_none_iff _).mp (by decide
 example : format [] ⟨1, 2, 3, [97, 46, 49], [98]⟩ true = [118, 49, 46, 50, 46, 51, 45, 97, 46, 49, 43, 98] := by
   decide
 
+/-- **secondary text paths**: `MarshalText`, `String`, `%s`, `%v` give the plain text, `StringTag` and `%t` the
+tag form (flag constant and verb switch generated from the source) -/
+theorem paths_agree (v : Ver) :
+    marshalText v = format [] v false ∧ Sem.toString v = format [] v false ∧ stringTag v = format [] v true ∧
+    formatVerb v 115 = format [] v false ∧ formatVerb v 118 = format [] v false ∧ formatVerb v 116 = format [] v true := by
+  have e0 : isTag 0 = false := by decide
+  have e1 : isTag Gen.sem_FormatTag = true := by decide
+  have es : isTag (flagsByVerb 115) = false := by decide
+  have ev : isTag (flagsByVerb 118) = false := by decide
+  have et : isTag (flagsByVerb 116) = true := by decide
+  simp only [marshalText, Sem.toString, stringTag, formatVerb, e0, e1, es, ev, et, and_self]
+
 end U.Props.C03
